@@ -30,6 +30,7 @@ static void emit_case(const unsigned char *data, int len, int sd)
          for (i = 0; i < ret; i++) if (s2[i] != size[i] || f2[i] != frames[i]) same = 0;
       }
       js_int("pub", same);
+      js_int("lb", opus_packet_has_lbrr(d, len));
    }
    js_close();
    free(d);
